@@ -149,16 +149,16 @@ Theorem C02_filecursor_aggregate_is_lww : forall h o, ops_allowed h = true ->
 Proof. exact fc_agg_is_lww. Qed.
 Print Assumptions C02_filecursor_aggregate_is_lww.
 
-(* THE LAYOUT PREDICATE IS AN INVARIANT, not an assumption: write, flush (plain / paused), compaction, merge-self and
-   reopen preserve it (sequences ascending; ordered files per-series time-increasing by position - the flush split at the
-   flush time and the adjacency of compaction groups are exactly what keeps it) *)
-Theorem C02_layout_ok_preserved : forall L o, layout_ok L = true -> op_ok L o = true -> is_merge_ooo o = false ->
-  layout_ok (step false L o) = true.
+(* THE LAYOUT PREDICATE IS AN INVARIANT, not an assumption: every op allowed by the planner / store predicate preserves
+   it (sequences ascending; ordered files per-series time-increasing by position). The flush split at the flush time,
+   the adjacency of compaction groups, and - for the out-of-order merge - the ascending sequences of the files it writes
+   together with the monotone placement by bounds are exactly what keeps it. *)
+Theorem C02_layout_ok_preserved : forall L o, layout_ok L = true -> op_ok L o = true -> layout_ok (step false L o) = true.
 Proof. exact step_layout_ok. Qed.
 Print Assumptions C02_layout_ok_preserved.
 
-(* hence the planner predicate alone (op_ok + write_ok per op; the layout predicate only for the RESULT of an out-of-order
-   merge, whose placement bounds are parameters taken from the store) implies the hypothesis of the theorems above *)
+(* hence the planner predicate alone (op_ok + write_ok per op, nothing about the layout) is equivalent to the hypothesis
+   of the theorems above *)
 Theorem C02_planned_is_allowed : forall h, ops_planned h = true -> ops_allowed h = true.
 Proof. exact planned_allowed. Qed.
 Theorem C02_read_is_lww_planner_only : forall h, ops_planned h = true -> forall s tmin tmax fs asc,
